@@ -66,6 +66,11 @@ func opConnMgr() error {
 			delete(dead, addrs[0].String())
 		}
 		flaky := 20 + rng.Intn(40) // additional random refusals on live addresses
+		// every third scenario starts with an OUTAGE: no address can be had (sci%3==1) or every dial is refused and there is no
+		// ban hook (sci%3==2), long enough for more than maxFailedAttempts (25) consecutive failures, so that replacements
+		// are scheduled by the retry timer; when it ends the manager must climb back to its target
+		outage := sci%3 != 0
+		noAddr := sci%3 == 1
 		banned := map[string]bool{}
 		open := map[uint64]string{}
 		reqs := map[uint64]*connmgr.ConnReq{}
@@ -73,6 +78,7 @@ func opConnMgr() error {
 		pendingID := map[net.Conn]uint64{}
 		nop := zerolog.Nop()
 		var cm *connmgr.ConnManager
+		outageBase := stats["noaddr"] + stats["dials"]
 		cfg := &connmgr.Config{
 			TargetOutbound: uint32(target),
 			RetryDuration:  time.Millisecond,
@@ -80,6 +86,11 @@ func opConnMgr() error {
 			GetNewAddress: func() (net.Addr, error) {
 				mu.Lock()
 				defer mu.Unlock()
+				if outage && noAddr {
+					emit(map[string]any{"ev": "noaddr"})
+					stats["noaddr"]++
+					return nil, errors.New("no address")
+				}
 				var cand []*net.TCPAddr
 				for _, a := range addrs {
 					if !banned[a.String()] {
@@ -107,7 +118,7 @@ func opConnMgr() error {
 			Dial: func(a net.Addr) (net.Conn, error) {
 				mu.Lock()
 				defer mu.Unlock()
-				ok := !dead[a.String()]
+				ok := !dead[a.String()] && !outage
 				if ok && flaky > 0 && rng.Intn(3) == 0 {
 					flaky--
 					ok = false
@@ -148,11 +159,31 @@ func opConnMgr() error {
 			stats["connected"]++
 			mu.Unlock()
 		}
+		if outage && !noAddr {
+			cfg.BanAddress = nil // failures are then counted globally (registerFailedConnection), nothing is banned
+		}
 		cm, err = connmgr.New(cfg)
 		if err != nil {
 			return err
 		}
 		cm.Start()
+		if outage {
+			// let the failures pile up well beyond the threshold, with several requests failing inside one retry interval
+			for i := 0; i < 400; i++ {
+				time.Sleep(time.Millisecond)
+				mu.Lock()
+				n := stats["noaddr"] + stats["dials"]
+				mu.Unlock()
+				if n-outageBase > 25*(target+2) {
+					break
+				}
+			}
+			mu.Lock()
+			outage = false
+			emit(map[string]any{"ev": "recovered"})
+			stats["outages"]++
+			mu.Unlock()
+		}
 		settle := func() int {
 			// wait until nothing has been logged for a while (dials are millisecond-fast), at most 3 s
 			last, lastN := time.Now(), -1
